@@ -77,8 +77,8 @@ func Harness_C12_tcp() {
 	na := verif_IntRange(0, verif_Bound("bytes"))
 	nb := verif_IntRange(0, verif_Bound("bytes"))
 	da, db := verif_Bytes(na), verif_Bytes(nb)
-	ra := &verifReader{Data: da, Cuts: verif_Bound("cuts")}
-	rb := &verifReader{Data: db, Cuts: verif_Bound("cuts")}
+	ra := &verifReader{Data: da, Cuts: verif_Bound("cuts"), ErrWithLast: verif_Bool()}
+	rb := &verifReader{Data: db, Cuts: verif_Bound("cuts"), ErrWithLast: verif_Bool()}
 	fault := verif_Choose(4)
 	wa, wb := &verifSink{}, &verifSink{}
 	switch fault {
